@@ -14,6 +14,8 @@ pub struct Shell { pub previous_status: i32 }
 pub open spec fn unq(t: Token) -> bool { t.0@.len() == 0 }
 pub open spec fn is_pipe(t: Token) -> bool { unq(t) && t.1@ == "|"@ }
 pub open spec fn is_lt(t: Token) -> bool { unq(t) && (t.1@ == "<"@ || t.1@ == "<<<"@) }
+// an unquoted word that begins with `<`: the operator itself, or the operator glued to its operand (`<file`, `<<<word`)
+pub open spec fn lt_like(t: Token) -> bool { unq(t) && t.1@.len() > 0 && t.1@[0] == '<' }
 pub open spec fn tv(t: Token) -> (Seq<char>, Seq<char>) { tok_view(t) }
 pub open spec fn tsv(v: Seq<Token>) -> Seq<(Seq<char>, Seq<char>)> { toks_view(v) }
 pub open spec fn pipe_tv() -> (Seq<char>, Seq<char>) { (Seq::<char>::empty(), "|"@) }
@@ -83,7 +85,7 @@ pub proof fn lemma_take_push(tokens: Seq<Token>, i: int)
 pub proof fn lemma_tsv_props(a: Seq<Token>, b: Seq<Token>)
     ensures tsv(a) == tsv(b) ==> a.len() == b.len()
         && (forall|i: int| 0 <= i < a.len() ==> tv(#[trigger] a[i]) == tv(b[i]))
-        && (forall|i: int| 0 <= i < a.len() ==> is_lt(#[trigger] a[i]) == is_lt(b[i]) && gt_free(a[i]) == gt_free(b[i]) && is_pipe(a[i]) == is_pipe(b[i]) && unq(a[i]) == unq(b[i]))
+        && (forall|i: int| 0 <= i < a.len() ==> is_lt(#[trigger] a[i]) == is_lt(b[i]) && lt_like(a[i]) == lt_like(b[i]) && gt_free(a[i]) == gt_free(b[i]) && is_pipe(a[i]) == is_pipe(b[i]) && unq(a[i]) == unq(b[i]))
         && plain_args(a) == plain_args(b),
 {
     if tsv(a) == tsv(b) {
@@ -91,11 +93,11 @@ pub proof fn lemma_tsv_props(a: Seq<Token>, b: Seq<Token>)
         assert forall|i: int| 0 <= i < a.len() implies tv(#[trigger] a[i]) == tv(b[i]) by {
             assert(tsv(a)[i] == tv(a[i]) && tsv(b)[i] == tv(b[i]));
         }
-        assert forall|i: int| 0 <= i < a.len() implies is_lt(#[trigger] a[i]) == is_lt(b[i]) && gt_free(a[i]) == gt_free(b[i]) && is_pipe(a[i]) == is_pipe(b[i]) && unq(a[i]) == unq(b[i]) by {
+        assert forall|i: int| 0 <= i < a.len() implies is_lt(#[trigger] a[i]) == is_lt(b[i]) && lt_like(a[i]) == lt_like(b[i]) && gt_free(a[i]) == gt_free(b[i]) && is_pipe(a[i]) == is_pipe(b[i]) && unq(a[i]) == unq(b[i]) by {
             assert(tv(a[i]) == tv(b[i]));
         }
-        if plain_args(a) { assert forall|i: int| 0 <= i < b.len() implies !is_lt(#[trigger] b[i]) && gt_free(b[i]) by { assert(is_lt(a[i]) == is_lt(b[i])); } }
-        if plain_args(b) { assert forall|i: int| 0 <= i < a.len() implies !is_lt(#[trigger] a[i]) && gt_free(a[i]) by { assert(is_lt(a[i]) == is_lt(b[i])); } }
+        if plain_args(a) { assert forall|i: int| 0 <= i < b.len() implies !lt_like(#[trigger] b[i]) && gt_free(b[i]) by { assert(lt_like(a[i]) == lt_like(b[i])); } }
+        if plain_args(b) { assert forall|i: int| 0 <= i < a.len() implies !lt_like(#[trigger] a[i]) && gt_free(a[i]) by { assert(lt_like(a[i]) == lt_like(b[i])); } }
     }
 }
 
@@ -148,7 +150,7 @@ pub open spec fn verbatim_hyp(planned: Seq<Token>) -> bool {
     && !(unq(planned.last()) && planned.last().1@ == "&"@)
 }
 pub open spec fn plain_args(v: Seq<Token>) -> bool {
-    forall|i: int| 0 <= i < v.len() ==> !is_lt(#[trigger] v[i]) && gt_free(v[i])
+    forall|i: int| 0 <= i < v.len() ==> !lt_like(#[trigger] v[i]) && gt_free(v[i])
 }
 #[verifier::external_body]
 pub fn is_builtin(s: &str) -> bool { unimplemented!() }
@@ -167,6 +169,12 @@ pub fn vx_position_text(v: &Tokens, a: &str, tagged: bool) -> (r: Option<usize>)
     }
 { unimplemented!() }
 
+#[verifier::external_body]
+pub fn vx_skip_bytes(s: &str, n: usize) -> (r: String) { s[n..].to_string() }
+#[verifier::external_body]
+pub fn vx_byte_len_str(s: &str) -> (r: usize) ensures r >= s@.len() { s.len() }
+#[verifier::external_body]
+pub fn vx_clone_string(s: &String) -> (r: String) ensures r@ == s@ { s.clone() }
 // regex captures of tokens_to_redirections (ptn1 / ptn2): left uninterpreted
 pub struct VxCaps { pub s1: String, pub s2: String, pub s3: String }
 #[verifier::external_body]
@@ -180,6 +188,7 @@ pub fn vx_captures2(ptn: &str, word: &str) -> (r: Option<VxCaps>)
 
 //@FN split_tokens_by_pipes
 //@FN tokens_to_redirections
+//@FN split_glued_input_redirections
 impl Command {
 //@FN Command::from_tokens
 //@FN Command::has_redirect_from
@@ -265,12 +274,28 @@ ANY = [
        why='Iterator::position closure (tag-checking form) through a shim with the std contract'),
 ]
 
+# `<file` / `<<<word`: the operator glued to its operand is taken apart first; words that are quoted, or do not begin with `<`, are left alone
+split_glued = Fn(T, 'split_glued_input_redirections', ret='r',
+    pre_rewrites=[Rw('text[3..].to_string()', 'vx_skip_bytes(text, 3)', rule='R12', why='byte slice of the word after the operator, through a shim (text uninterpreted)'),
+                  Rw('text[1..].to_string()', 'vx_skip_bytes(text, 1)', rule='R12'),
+                  Rw('text.len()', 'vx_byte_len_str(text)', rule='R12', why='str::len is a byte length')],
+    let_types={'result': 'Tokens'},
+    clone_shims={'sep': 'vx_clone_string', 'text': 'vx_clone_string'},
+    ensures=[('C04+C01.split_glued.words_not_beginning_with_an_unquoted_lt_are_untouched',
+              '(forall|i: int| 0 <= i < tokens@.len() ==> !lt_like(#[trigger] tokens@[i])) ==> tsv(r@) == tsv(tokens@)')],
+    loops={0: Loop(invariant=[('C04+C01.inv.split_glued.prefix',
+                               '(forall|i: int| 0 <= i < tokens@.len() ==> !lt_like(#[trigger] tokens@[i])) ==> tsv(result@) == tsv(tokens@.take(__I as int))')])},
+    hints={'loop-0-body-entry': 'lemma_take_push(tokens@, __I as int); reveal_strlit("<<<"); reveal_strlit("<<"); assert("<<<"@ =~= seq![\'<\', \'<\', \'<\']); '
+                                'assert forall|a: Seq<char>| #![trigger a.subrange(0, 3)] a.len() >= 3 && a.subrange(0, 3) == "<<<"@ implies a[0] == \'<\' by { assert(a.subrange(0, 3)[0] == a[0]); } '
+                                'assert forall|x: Token| #[trigger] tsv(result@.push(x)) == tsv(result@).push(tv(x)) by { assert(tsv(result@.push(x)) =~= tsv(result@).push(tv(x))); }',
+           'loop-0-exit': 'assert(tokens@.take(tokens@.len() as int) == tokens@);'},
+)
+
 from_tokens = Fn(T, 'from_tokens', impl='Command', ret='r', pre_rewrites=ANY,
-    clone_shims={'tokens': 'vx_clone_tokens'},
     let_types={'tokens_final': 'Tokens', 'redirects_to': 'Vec<Redirection>'},
     ensures=[
         ('C01+C13+C04+C11.from_tokens.quoted_lt_is_data',
-         '(forall|i: int| 0 <= i < tokens@.len() ==> !is_lt(#[trigger] tokens@[i])) ==> (match r { Ok(c) => c.redirect_from.is_none(), Err(_) => true })'),
+         '(forall|i: int| 0 <= i < tokens@.len() ==> !lt_like(#[trigger] tokens@[i])) ==> (match r { Ok(c) => c.redirect_from.is_none(), Err(_) => true })'),
         ('C01+C13.from_tokens.plain_args_verbatim',
          'plain_args(tokens@) && tokens@.len() > 0 ==> (match r { Ok(c) => tsv(c.tokens@) == tsv(tokens@) && c.redirects_to@.len() == 0 && c.redirect_from.is_none(), Err(_) => false })'),
         ('C05.from_tokens.command_nonempty', 'match r { Ok(c) => c.tokens@.len() > 0, Err(_) => true }'),
@@ -281,17 +306,19 @@ from_tokens = Fn(T, 'from_tokens', impl='Command', ret='r', pre_rewrites=ANY,
     ],
     loops={0: Loop(invariant=[
         ('C05.inv.from_tokens.len', 'len == tokens_new@.len()'),
-        ('C01.inv.from_tokens.untouched', '(forall|i: int| 0 <= i < tokens@.len() ==> !is_lt(#[trigger] tokens@[i])) ==> '
+        ('C01.inv.from_tokens.untouched', '(forall|i: int| 0 <= i < tokens@.len() ==> !lt_like(#[trigger] tokens@[i])) ==> '
                                           'tsv(tokens_new@) == tsv(tokens@) && redirects_from_type@.len() == 0'),
         ('C04.inv.from_tokens.kind', 'redirects_from_type@.len() == 0 || redirects_from_type@ == "<"@ || redirects_from_type@ == "<<<"@'),
         ('C01+C13+C04+C11.inv.from_tokens.lt_flag_honours_tag', 'has_redirect_from == exists|i: int| 0 <= i < tokens_new@.len() && is_lt(#[trigger] tokens_new@[i])'),
     ], decreases='tokens_new@.len()')},
-    hints={'loop-0-body-entry': 'lemma_tsv_props(tokens_new@, tokens@);',
+    hints={'loop-0-body-entry': 'lemma_tsv_props(tokens_new@, tokens@); reveal_strlit("<"); reveal_strlit("<<<"); '
+                                'assert("<"@.len() == 1 && "<"@[0] == \'<\' && "<<<"@.len() == 3 && "<<<"@[0] == \'<\'); '
+                                'assert forall|t: Token| is_lt(t) implies #[trigger] lt_like(t) by { };',
            # the word taken off the command as the input-redirection operator is an UNQUOTED `<` / `<<<`: a quoted, escaped or expanded `<` is an argument
            'before-text-all:tokens_new.remove(idx);':
                'LABEL:C01+C13+C04+C11.from_tokens.only_an_unquoted_lt_is_removed_as_operator: assert(idx < tokens_new@.len() && is_lt(tokens_new@[idx as int]));',
            'before-call:tokens_to_redirections': 'lemma_tsv_props(tokens_new@, tokens@);',
-           'after-call:vx_clone_tokens': 'lemma_tsv_props(tokens_new@, tokens@);'},
+           'after-call:split_glued_input_redirections': 'lemma_tsv_props(tokens_new@, tokens@);'},
 )
 
 has_redirect_from = Fn(T, 'has_redirect_from', impl='Command', ret='r',
@@ -341,7 +368,7 @@ cl_single_builtin = Fn(T, 'is_single_and_builtin', impl='CommandLine', ret='r',
     ensures=[('C02.cl.single_builtin', 'r ==> self.commands@.len() == 1')])
 
 UNIT = Unit('U-PLAN', TEMPLATE,
-            fns=[split_tokens_by_pipes, tokens_to_redirections, from_tokens, has_redirect_from, has_here_string, cmd_is_builtin,
+            fns=[split_tokens_by_pipes, tokens_to_redirections, split_glued, from_tokens, has_redirect_from, has_here_string, cmd_is_builtin,
                  from_line, cl_is_empty, cl_with_pipeline, cl_single_builtin],
             types=[TypeItem(T, 'struct', 'LineInfo'), TypeItem(T, 'struct', 'Command'), TypeItem(T, 'struct', 'CommandLine')],
             props=('C01', 'C13', 'C04', 'C05', 'C02'))
